@@ -193,7 +193,8 @@ def witnesses(form, seed=0, thorough=False):
             out.append(("reghi", e.assemble(reg=4 + (seed % 4), rm=4 + ((seed + 3) % 4))))
             out.append(("regx", e.assemble(reg=9 + (seed % 6), rm=[12, 13, 8, 15][seed % 4], force_rex=True)))
             out.append(("regrex", e.assemble(reg=4 + (seed % 4), rm=4 + ((seed + 1) % 4), force_rex=True)))
-            out.append(("memx", e.assemble(reg=10, mem={"mode": "disp8", "base": 13, "disp": 0xF0})))
+            # (a "memx" shape with a REX base register was dropped: a second memory shape per form doubles the
+            # most expensive part of the thorough tier for little gain; other addressing forms are C05's subject)
     elif e.plusr:
         out.append(("reg", e.assemble(plus=rm)))
         if thorough:
